@@ -351,6 +351,105 @@ func rulesC01(c *Ctx) {
 
 	c.Rule("R-C01-8", "a transport's producer goroutine cannot die silently: its exit always reaches the session's reader (close or error), otherwise pending calls stay blocked (streamable client: R-C09-3)", func() { ruleC01ProducerExit(c) })
 	c.Rule("R-C01-9", "streamable client: a call whose response stream breaks is completed by a synthetic error or by failing the connection, never left pending (shared with R-C09-3)", func() { ruleStreamNeverSilent(c) })
+	c.Rule("R-C01-10", "the plumbing the other rules presuppose: the reader reads one message per iteration and dispatches it (responses by id, requests to acceptRequest), start marks the reader as running before it starts it, and Await hands the caller the response's error or decodes its result", func() {
+		ri := c.Fn(pJ, "Connection", "readIncoming")
+		g := ri.Graph()
+		readM := c.P.StdFunc(modPath+"/"+pJ, "Reader", "Read")
+		c.Need(readM != nil, "jsonrpc2.Reader.Read")
+		rv := g.callVertices(readM)
+		c.Need(len(rv) == 1, "readIncoming: one Read call")
+		var loop *ast.ForStmt
+		inspectNoLit(ri.Body, func(n ast.Node) {
+			if fs, ok := n.(*ast.ForStmt); ok && encloses(fs, g.Node(rv[0])) {
+				loop = fs
+			}
+		})
+		okLoop := loop != nil && loop.Cond == nil
+		// what Read returns is what the type switch dispatches, and its error ends the loop
+		msgV, errV := ri.VarFromCall(readM, 0), ri.VarFromCall(readM, 1)
+		okSwitch := false
+		accept := c.FnObj(pJ, "Connection", "acceptRequest")
+		if loop != nil {
+			ast.Inspect(loop.Body, func(n ast.Node) bool {
+				ts, ok := n.(*ast.TypeSwitchStmt)
+				if !ok {
+					return true
+				}
+				var subject ast.Expr
+				switch a := ts.Assign.(type) {
+				case *ast.AssignStmt:
+					if ta, ok := ast.Unparen(a.Rhs[0]).(*ast.TypeAssertExpr); ok {
+						subject = ta.X
+					}
+				case *ast.ExprStmt:
+					if ta, ok := ast.Unparen(a.X).(*ast.TypeAssertExpr); ok {
+						subject = ta.X
+					}
+				}
+				if subject != nil && ri.ObjOf(subject) == msgV && msgV != nil && g.Dominates(rv[0], g.VertexOf(ts.Assign)) {
+					okSwitch = len(ri.CallsIn(ts.Body, accept, false)) == 1
+				}
+				return true
+			})
+		}
+		okErr := false
+		for _, t := range g.edgesWhere(func(a Atom) bool { return AtomSaysNil(a, false, func(e ast.Expr) bool { return errV != nil && ri.ObjOf(e) == errV }) }) {
+			// the failure edge leaves the loop: the next Read is not reachable from it
+			if seen, _ := g.reach([]int{t}, nil, nil); !seen[rv[0]] {
+				okErr = true
+			}
+		}
+		c.Check(okLoop && okSwitch && okErr, "readIncoming:read-dispatch-loop", ri, g.Node(rv[0]), "an unconditional loop reads a message, leaves on a read error and otherwise dispatches the message it read (loop=%v dispatch=%v error-exit=%v)", okLoop, okSwitch, okErr)
+		// start
+		st := c.Fn(pJ, "Connection", "start")
+		reading := c.Field(pJ, "inFlightState", "reading")
+		okStart := false
+		for _, s := range c.uifSites(st) {
+			l := s.Lit
+			lg := l.Graph()
+			for _, gs := range l.goStmts() {
+				if !l.IsCallTo(gs.Call, ri.Obj) {
+					continue
+				}
+				for _, w := range l.FieldWrites(l.Body, reading, false) {
+					if as, ok := w.(*ast.AssignStmt); ok && exprStr(as.Rhs[0]) == "true" && lg.Dominates(lg.VertexOf(w), lg.VertexOf(gs)) {
+						okStart = true
+					}
+				}
+			}
+		}
+		c.Check(okStart, "start:reading-set-before-reader-starts", st, nil, "reading = true is set (under the state lock) before `go readIncoming`: the idle test that closes the transport must see a reader that has not exited yet")
+		// Await
+		aw := c.Fn(pJ, "AsyncCall", "Await")
+		ag := aw.Graph()
+		respErr := func(e ast.Expr) bool { return aw.FieldPath(e) == "AsyncCall.response.Error" }
+		okAw := false
+		for _, t := range ag.edgesWhere(func(a Atom) bool { return AtomSaysNil(a, false, respErr) }) {
+			okAw = true
+			seen, _ := ag.reach([]int{t}, nil, nil)
+			seen[t] = true
+			for _, x := range ag.Exits {
+				if seen[x] {
+					r, isR := ag.Node(x).(*ast.ReturnStmt)
+					if !isR || len(r.Results) != 1 || !respErr(r.Results[0]) {
+						okAw = false
+					}
+				}
+			}
+		}
+		c.Check(okAw, "Await:returns-response-error", aw, nil, "when the response carries an error, Await returns that error")
+		okDec := false
+		for _, r := range aw.Returns() {
+			if len(r.Results) == 1 {
+				if ce, ok := ast.Unparen(r.Results[0]).(*ast.CallExpr); ok && aw.Callee(ce) != nil && aw.Callee(ce).Name() == "Unmarshal" && len(ce.Args) == 2 {
+					if aw.FieldPath(ce.Args[0]) == "AsyncCall.response.Result" && aw.ObjOf(ce.Args[1]) == types.Object(aw.NonRecvParams()[1]) {
+						okDec = hasAtom(ag.GuardsAt(ag.VertexOf(r)), func(a Atom) bool { return AtomSaysNil(a, true, respErr) })
+					}
+				}
+			}
+		}
+		c.Check(okDec, "Await:decodes-response-result", aw, nil, "otherwise the response's result is decoded into the caller's value")
+	})
 
 	c.Rule("R-C01-7", "closing errors are mapped to ErrConnectionClosed before the context arm; shuttingDown returns nil or an error wrapping its argument", func() {
 		call := c.Fn(pM, "", "call")
